@@ -109,13 +109,20 @@ func loadGen(repo string, patterns []string, specDir string) (*Gen, error) {
 			continue
 		}
 		dir := filepath.Dir(p.GoFiles[0])
-		cf := filepath.Join(dir, "verif_contracts.go")
-		if _, err := os.Stat(cf); err == nil {
+		cfs, _ := filepath.Glob(filepath.Join(dir, "verif_contracts*.go"))
+		sort.Strings(cfs)
+		for _, cf := range cfs {
 			sf, err := parseSpecFile(cf, path)
 			if err != nil {
 				return nil, err
 			}
-			g.specs[path] = sf
+			if prev := g.specs[path]; prev != nil {
+				if err := mergeSpecFiles(prev, sf); err != nil {
+					return nil, err
+				}
+			} else {
+				g.specs[path] = sf
+			}
 			for k, v := range sf.Externs {
 				g.externs[k] = v
 			}
@@ -260,4 +267,35 @@ func isLogCall(fn *types.Func, call *ast.CallExpr) bool {
 		}
 	}
 	return false
+}
+
+// mergeSpecFiles adds the declarations of b to a (several contract files of one package).
+func mergeSpecFiles(a, b *SpecFile) error {
+	for k, v := range b.Contracts {
+		if _, dup := a.Contracts[k]; dup {
+			return fmt.Errorf("%s:%d: function %s has a contract in two files of the package", v.File, v.Line, k)
+		}
+		a.Contracts[k] = v
+	}
+	a.Order = append(a.Order, b.Order...)
+	for k, v := range b.Preds {
+		if _, dup := a.Preds[k]; dup {
+			return fmt.Errorf("%s: predicate %s defined twice in the package", v.Body.File, k)
+		}
+		a.Preds[k] = v
+	}
+	for k, v := range b.Fns {
+		if _, dup := a.Fns[k]; dup {
+			return fmt.Errorf("spec fn %s defined twice in the package", k)
+		}
+		a.Fns[k] = v
+	}
+	for k, v := range b.Lemmas {
+		a.Lemmas[k] = v
+	}
+	for k, v := range b.Consts {
+		a.Consts[k] = v
+	}
+	a.Ghosts = append(a.Ghosts, b.Ghosts...)
+	return nil
 }
